@@ -7,6 +7,7 @@ every call made by Feature construction, astuple(), make_query and region),
 plus boundary-level checks of the "Hence" clause and of Feature.bin / the
 stored bin column.
 """
+import os
 import sqlite3
 
 from gvmon.models import binspec as S
@@ -17,7 +18,10 @@ RULE = ("pairs (start,end) from the boundary set {m*2^(17+3k)+d : |d|<=2} U {0,2
         "within +-2 of a bin boundary and its two ends fall in different finest bins (or it is out of range); "
         "distinct = distinct (start,end,fmt,one) / distinct interval pairs for the overlap clause")
 REQUIRED = ["debug helpers of the bins module called before further checks", "repeated calls after the caller mutated the returned set", "bins of features constructed by gffutils checked",
-            "stored bin after coordinate edit checked", "bins.bins contract evaluations", "overlap pairs checked", "Feature.bin checked", "stored bin column checked"]
+            "stored bin after coordinate edit checked", "bins.bins contract evaluations", "overlap pairs checked", "Feature.bin checked", "stored bin column checked",
+            "stored bin checked after an update of a GTF database", "region(<edited Feature>) compared with the tuple form",
+            "region(<merge() output>) compared with the tuple form", "queries on a primed handle after another handle moved the features",
+            "query forms (tuple, string, wider string) checked against a stored bin"]
 ASSUMPTIONS = [
     "the specification in gvmon/models/binspec.py is a faithful reading of the statement",
     "'bed' is judged through bins(s,e,'bed') == bins(s+1,e,'gff') for non-empty half-open intervals only",
@@ -137,6 +141,10 @@ def execute(ctx, case):
         drain(ctx, case)
     elif kind == "edited":
         edited_insert(ctx, case)
+    elif kind == "gtf_update":
+        gtf_update(ctx, case)
+    elif kind == "stale_query_feature":
+        stale_query_feature(ctx, case)
     elif kind == "derived":
         # Feature objects that gffutils itself constructs (gaps between features): their bin is bins(start, end) too
         pairs = case["pairs"]
@@ -184,6 +192,96 @@ def execute(ctx, case):
                     break
         db.conn.close()
         drain(ctx, case)
+
+
+def gtf_update(ctx, case):
+    """A GTF database (genes and transcripts inferred) updated with further exons of an existing transcript that lie in
+    another genomic bin: whatever the update does to the stored rows, every row's bin is bins(start, end) of the coordinates
+    stored with it, and a query around a row's position finds it."""
+    import gffutils
+    from gffutils import bins as B
+
+    def ex(i, s, e):
+        return 'chr1\tsrc\texon\t%d\t%d\t.\t+\t.\tgene_id "g1"; transcript_id "t1"; exon_number "%d";' % (s, e, i)
+    base = "\n".join(ex(i, s, e) for i, (s, e) in enumerate(case["exons"])) + "\n"
+    more = "\n".join(ex(100 + i, s, e) for i, (s, e) in enumerate(case["more"])) + "\n"
+    dbfn = ctx.tmp(".db")
+    try:
+        db = gffutils.create_db(base, dbfn, from_string=True)
+        prime(db)
+        for strategy in case["strategies"]:
+            db.update(more, from_string=True, merge_strategy=strategy, make_backup=False)
+        rows = db.conn.execute("SELECT id, seqid, start, end, bin FROM features").fetchall()
+        for fid, seqid, s_, e_, b_ in rows:
+            if s_ is None or e_ is None:
+                continue
+            ctx.mon("stored bin checked after an update of a GTF database")
+            if b_ != B.bins(s_, e_, one=True):
+                ctx.violation(case, {"why": "after update() of a GTF database a row's bin is not bins(start, end) of its stored coordinates",
+                                     "feature": fid, "stored": [s_, e_, b_], "bins()": B.bins(s_, e_, one=True)})
+                return
+            if S.in_range(s_, e_) and s_ <= e_:
+                hits = [f.id for f in db.all_features(limit=(seqid, s_, e_), completely_within=True)]
+                hits2 = [f.id for f in db.region((seqid, s_, e_), completely_within=True)]
+                if fid not in hits or fid not in hits2:
+                    ctx.violation(case, {"why": "after update() of a GTF database a stored feature is not found by a query around its position",
+                                         "feature": fid, "coords": [s_, e_], "limit": hits, "region": hits2})
+                    return
+        db.conn.close()
+    except Exception as ex_:
+        ctx.violation(case, {"why": "GTF create/update raised %r" % (ex_,)})
+    finally:
+        if os.path.exists(dbfn):
+            os.unlink(dbfn)
+    drain(ctx, case)
+
+
+def stale_query_feature(ctx, case):
+    """region(<Feature>) uses the Feature's seqid, start and end as they are NOW - a Feature fetched from the database and
+    widened by the caller (flanks), or the interval merge() yields, asks the same as the tuple of its coordinates."""
+    import gffutils
+
+    coords = case["coords"]
+    lines = ["chr1\tsrc\tgene\t%d\t%d\t.\t+\t.\tID=g%d" % (s_, e_, i) for i, (s_, e_) in enumerate(coords)]
+    try:
+        db = gffutils.create_db("\n".join(lines), ":memory:", from_string=True)
+        for i, (ds, de) in enumerate(case["widen"]):
+            f = db["g%d" % (i % len(coords))]
+            how = i % 3
+            if how == 0:
+                f.start, f.end = max(1, f.start - ds), f.end + de
+            elif how == 1:
+                f.stop = f.end + de
+            else:
+                f[3] = max(1, f.start - ds)
+                f[4] = f.end + de
+            if not (S.in_range(f.start, f.end) and f.start <= f.end):
+                continue
+            for cw in (True, False):
+                a = sorted(x.id for x in db.region(region=f, completely_within=cw))
+                b = sorted(x.id for x in db.region(("chr1", f.start, f.end), completely_within=cw))
+                c = sorted(x.id for x in db.region(f, completely_within=cw))
+                ctx.mon("region(<edited Feature>) compared with the tuple form")
+                if a != b or c != b:
+                    ctx.violation(case, {"why": "region(<Feature whose coordinates were edited after it was fetched>) differs from "
+                                                "region((seqid, start, end)) of its coordinates", "completely_within": cw,
+                                         "feature": [f.start, f.end], "by_feature": a, "by_tuple": b})
+                    db.conn.close()
+                    return
+        merged = list(db.merge(db.all_features(order_by=("seqid", "strand", "start"))))
+        for m in merged:
+            if S.in_range(m.start, m.end) and m.start <= m.end:
+                a = sorted(x.id for x in db.region(m, completely_within=True))
+                b = sorted(x.id for x in db.region(("chr1", m.start, m.end), completely_within=True))
+                ctx.mon("region(<merge() output>) compared with the tuple form")
+                if a != b:
+                    ctx.violation(case, {"why": "region(<feature yielded by merge()>) differs from region((seqid, start, end)) of its coordinates",
+                                         "feature": [m.start, m.end], "by_feature": a, "by_tuple": b})
+                    break
+        db.conn.close()
+    except Exception as ex_:
+        ctx.violation(case, {"why": "region(<Feature>) raised %r" % (ex_,)})
+    drain(ctx, case)
 
 
 def prime(db):
@@ -385,6 +483,26 @@ def run(ctx):
         case = {"kind": "edited", "how": rng.choice(["transform", "update-replace", "add_relation-hooks", "second-handle"]), "moves": moves}
         execute(ctx, case)
         ctx.case(("edited", case["how"], moves), True, sample=case if rng.random() < 0.1 else None, cls="insert after coordinate edit")
+    # 6b. GTF databases updated with exons in another bin; queries given as edited Feature objects
+    for _ in range(ctx.budget(40, 1600)):
+        edge = rng.choice([v for v in vals if 5000 < v < S.LIMIT - 10 ** 6])
+        exons = [(max(1, edge - 4000 + 300 * i), max(1, edge - 4000 + 300 * i) + 100) for i in range(rng.randrange(1, 4))]
+        more = [(edge + rng.choice([2 ** 17, 2 ** 20, 5, 3000]) + 500 * i, edge + rng.choice([2 ** 17, 2 ** 20, 5, 3000]) + 500 * i + 80)
+                for i in range(rng.randrange(1, 3))]
+        more = [(a, max(a, b)) for a, b in more]
+        case = {"kind": "gtf_update", "exons": exons, "more": more, "strategies": [rng.choice(["create_unique", "merge", "replace"])]}
+        execute(ctx, case)
+        ctx.case(("gtf_update", exons, more, case["strategies"]), True, sample=case if rng.random() < 0.1 else None, cls="GTF database updated")
+    for _ in range(ctx.budget(40, 1600)):
+        coords = []
+        for _ in range(12):
+            edge = rng.choice([v for v in vals if 3000 < v < S.LIMIT - 10 ** 6])
+            s0 = max(1, edge + rng.randrange(-2500, 2500))
+            coords.append((s0, s0 + rng.randrange(0, 3000)))
+        widen = [(rng.choice([0, 0, 1500, 2 ** 17]), rng.choice([1, 2000, 2 ** 17 + 5, 2 ** 20])) for _ in range(10)]
+        case = {"kind": "stale_query_feature", "coords": coords, "widen": widen}
+        execute(ctx, case)
+        ctx.case(("stale_query_feature", coords, widen), True, sample=case if rng.random() < 0.1 else None, cls="query by edited Feature")
     # 7. Feature objects built by gffutils itself next to bin boundaries
     for _ in range(ctx.budget(40, 1600)):
         pairs = []
